@@ -121,6 +121,15 @@ def _call_kills(c: ast.Call, out: Set[str]):
         return
     if isinstance(c.func, ast.Name):
         f = c.func.id
+        if f not in KNOWN_FUNCS and f in IMPORT_ALIASES and all(r in KNOWN_FUNCS for r in IMPORT_ALIASES[f]):
+            # `from .backend import kernel as impl`: the alias modifies what the functions it may stand for modify
+            mut = set()
+            for r in IMPORT_ALIASES[f]:
+                mut |= MUTATORS.get(r, set())
+            for i, a in enumerate(args):
+                if i in mut and _base_name(a):
+                    out.add(_base_name(a))
+            return
         if f in KNOWN_FUNCS:
             mut = MUTATORS.get(f, set())
             for i, a in enumerate(args):
@@ -134,6 +143,9 @@ def _call_kills(c: ast.Call, out: Set[str]):
     for a in args:
         if isinstance(a, ast.Name):
             out.add(a.id)
+
+
+IMPORT_ALIASES: Dict[str, Set[str]] = {}     # alias -> the function names it is bound to somewhere in the package
 
 
 def compute_mutators(trees: List[ast.Module]):
@@ -159,6 +171,13 @@ def compute_mutators(trees: List[ast.Module]):
     KNOWN_FUNCS.clear()
     MUTATORS.clear()
     KNOWN_FUNCS.update(n for n, _, _ in funcs)
+    IMPORT_ALIASES.clear()
+    for t in trees:
+        for n in ast.walk(t):
+            if isinstance(n, ast.ImportFrom):
+                for a in n.names:
+                    if a.asname and a.asname != a.name:
+                        IMPORT_ALIASES.setdefault(a.asname, set()).add(a.name)
     changed = True
     rounds = 0
     while changed and rounds < 10:
@@ -1697,6 +1716,133 @@ def _commute(a: ast.stmt, b: ast.stmt) -> bool:
     return not (wa & (rb | wb)) and not (wb & ra)
 
 
+def _index_to_element_comprehensions(fn: ast.FunctionDef) -> bool:
+    """N24: `[E(L[i]) for i in range(len(L))]` where the comprehension uses i only to read `L[i]` (L a name the
+    comprehension does not re-bind) is `[E(x) for x in L]`."""
+    changed = False
+    taken = {n.id for n in ast.walk(fn) if isinstance(n, ast.Name)}
+
+    class T(ast.NodeTransformer):
+        def visit_FunctionDef(self, node):
+            if node is fn:
+                self.generic_visit(node)
+            return node
+
+        def _comp(self, node):
+            nonlocal changed
+            self.generic_visit(node)
+            if len(node.generators) != 1:
+                return node
+            g = node.generators[0]
+            it = g.iter
+            if not (isinstance(g.target, ast.Name) and isinstance(it, ast.Call) and isinstance(it.func, ast.Name)
+                    and it.func.id in ('range', 'xrange') and len(it.args) == 1 and not it.keywords):
+                return node
+            a = it.args[0]
+            L = None
+            if isinstance(a, ast.Call) and isinstance(a.func, ast.Name) and a.func.id == 'len' and len(a.args) == 1 \
+                    and isinstance(a.args[0], ast.Name):
+                L = a.args[0].id
+            elif isinstance(a, ast.Name) and a.id.startswith('N_') and a.id[2:] in taken:
+                L = a.id[2:]            # the length name this normaliser gives to len(L)
+            if L is None:
+                return node
+            i = g.target.id
+            parts = [node.elt] + list(g.ifs) if not isinstance(node, ast.DictComp) else None
+            if parts is None:
+                return node
+            uses = [n for p_ in parts for n in ast.walk(p_) if isinstance(n, ast.Name) and n.id == i]
+            subs = [n for p_ in parts for n in ast.walk(p_) if isinstance(n, ast.Subscript) and isinstance(n.value, ast.Name)
+                    and n.value.id == L and isinstance(n.slice, ast.Name) and n.slice.id == i and isinstance(n.ctx, ast.Load)]
+            if not uses or len(uses) != len(subs):
+                return node
+            x = f"{L}__x"
+            k = 0
+            while x in taken:
+                k += 1
+                x = f"{L}__x{k}"
+            taken.add(x)
+
+            class R(ast.NodeTransformer):
+                def visit_Subscript(self, n):
+                    if isinstance(n.value, ast.Name) and n.value.id == L and isinstance(n.slice, ast.Name) and n.slice.id == i:
+                        return ast.copy_location(ast.Name(id=x, ctx=ast.Load()), n)
+                    return self.generic_visit(n)
+            node.elt = R().visit(node.elt)
+            g.ifs = [R().visit(c) for c in g.ifs]
+            g.target = ast.copy_location(ast.Name(id=x, ctx=ast.Store()), g.target)
+            g.iter = ast.copy_location(ast.Name(id=L, ctx=ast.Load()), g.iter)
+            changed = True
+            return node
+
+        visit_ListComp = _comp
+        visit_GeneratorExp = _comp
+        visit_SetComp = _comp
+    T().visit(fn)
+    if changed:
+        ast.fix_missing_locations(fn)
+        _invalidate()
+    return changed
+
+
+def _sink_defs_into_branches(fn: ast.FunctionDef) -> bool:
+    """N25: `v = E` (E side-effect free) directly in front of an `if` with an else, v occurring nowhere in the function but
+    in that definition and inside the arms of that `if` (not in its tests): the definition moves to the start of every arm
+    that mentions v.  (Whether a value needed on both branches is fetched before the decision or on each branch is one
+    program; on a branch that only reads it the substitution of temporaries then applies.)"""
+    changed = False
+    occ: Dict[str, int] = {}
+    for n in ast.walk(fn):
+        if isinstance(n, ast.Name):
+            occ[n.id] = occ.get(n.id, 0) + 1
+    params = _fn_params(fn)
+
+    def arms_of(node: ast.If):
+        out_ = [node.body]
+        tests = [node.test]
+        cur = node
+        while len(cur.orelse) == 1 and isinstance(cur.orelse[0], ast.If):
+            cur = cur.orelse[0]
+            out_.append(cur.body)
+            tests.append(cur.test)
+        out_.append(cur.orelse)
+        return out_, tests
+
+    def visit(block):
+        nonlocal changed
+        for st in block:
+            if not isinstance(st, (ast.FunctionDef, ast.ClassDef)):
+                for b in _blocks_of(st):
+                    visit(b)
+        k = 0
+        while k + 1 < len(block):
+            s_, nx = block[k], block[k + 1]
+            if isinstance(s_, ast.Assign) and len(s_.targets) == 1 and isinstance(s_.targets[0], ast.Name) and isinstance(nx, ast.If) \
+                    and nx.orelse and _is_pure_expr(s_.value) and not isinstance(s_.value, (ast.Constant,)):
+                v = s_.targets[0].id
+                arms, tests = arms_of(nx)
+                inside = sum(1 for n in ast.walk(nx) if isinstance(n, ast.Name) and n.id == v)
+                in_tests = any(isinstance(n, ast.Name) and n.id == v for t_ in tests for n in ast.walk(t_))
+                if v not in params and v not in _names_loaded(s_.value) and not in_tests and arms[-1] \
+                        and occ.get(v, 0) == inside + 1 and inside > 0 \
+                        and not (mutated_names(ast.Module(body=[ast.Expr(value=t_) for t_ in tests], type_ignores=[])) & _names_loaded(s_.value)):
+                    using = [a for a in arms if any(isinstance(n, ast.Name) and n.id == v for x in a for n in ast.walk(x))]
+                    # worthwhile only when some arm merely reads it or some arm does not need it at all
+                    if len(using) < len(arms) or any(not any(_stores(x, v) for x in a) for a in using):
+                        for a in using:
+                            a.insert(0, copy.deepcopy(s_))
+                        del block[k]
+                        occ[v] = occ.get(v, 0) + len(using) - 1
+                        changed = True
+                        continue
+            k += 1
+    visit(fn.body)
+    if changed:
+        ast.fix_missing_locations(fn)
+        _invalidate()
+    return changed
+
+
 def _split_chained_assign(fn: ast.FunctionDef) -> bool:
     """`a = b = E` with E side-effect free and the targets plain names is `a = E; b = E`."""
     changed = False
@@ -3196,6 +3342,7 @@ def normalize_function(fn: ast.FunctionDef, module_helpers: Dict[str, ast.Functi
             _SortMinMaxArgs().visit(st)
         _invalidate()
         _split_chained_assign(fn)
+        _index_to_element_comprehensions(fn)
         _sink_update_into_defs(fn)
         _extend_to_augassign(fn)
         _fuse_ifs(fn.body)
@@ -3217,6 +3364,7 @@ def normalize_function(fn: ast.FunctionDef, module_helpers: Dict[str, ast.Functi
             while _coalesce_copies(fn) or _coalesce_generated(fn) or _coalesce_select(fn):
                 ch = True
             ch = _reuse_values(fn) or ch
+            ch = _sink_defs_into_branches(fn) or ch
             if not ch:
                 ch = _inline_temps(fn, False)   # copies of generated names that coalescing could not remove
             ch = _forward_tuple_temps(fn) or ch
